@@ -7,5 +7,5 @@ CONSTANTS
  MaxBad = 9
  ShortReads = FALSE
  Variant = "code"
-INVARIANTS ValidImpliesDisk Confinement FailedIsZero MustReuse Conforms
+INVARIANTS ValidImpliesDisk Confinement FailedIsZero MustReuse Conforms Promised
 CHECK_DEADLOCK FALSE
